@@ -10,6 +10,18 @@ CHECKS = {
  "C02": dict(tech="TLA+ exact-rational derivative model (DB, m-th derivative rows) model-checked against the transcribed bspline_deriv_nonzero / bspline_nonzero; TLC states replayed into bitmask, gradient and arbitrary-order derivative entry points",
              text="same generator as C01; derivative rows of order 1..n+1 are exact rationals from TLC; replay covers every derivative bitmask (<= 4-D), all gradient lanes (<= 7-D, refusal above), arbitrary derivative orders 0..n+1, with derivative scaling under affine maps",
              note="as C01; derivative orders >= 2 only on strictly increasing knots (property's own domain)", ref="5/C02"),
+ "C04": dict(tech="TLA+ step machine of searchcenters (Centers.tla) model-checked exhaustively by TLC (safety + liveness); every finished state replayed on the real lookup paths; real random lookups validated by Trace_Centers",
+             text="TLC explores every reachable state of the lookup machine for all gap patterns {repeated, distinct}, all lattice positions, +-inf, NaN: Accept, Range, Bracket, bounded iterations, no unsigned wrap, termination under fairness. All finished states are replayed on table/evaluator/C lookups under six strictly increasing lattice->double maps (incl. 2^+-300, denormal spacing, near DBL_MAX), 1-D and embedded in 3-D, with a termination watchdog; the call operator is checked against lookup+evaluate. Exhaustive within the tier's knot counts.",
+             note="order relations only: doubles are reached through monotone images of the lattice; knot counts 2n+2..2n+3 (quick) / ..2n+5 (thorough)", ref="5/C04"),
+ "C05": dict(tech="TLA+ index model (CoefOwned, KnotsOwned in Centers.tla over EvalAlgo's touched-index sets) model-checked by TLC; all finished states executed through every evaluation entry point under ASan+UBSan with assertions; random IEEE bit patterns validated by Trace_Centers",
+             text="TLC proves on the model that every center the lookup can return (for any coordinate class incl. NaN/inf) keeps the coefficient block and all knot reads inside owned/padded memory; the same states, under six double maps, are executed through value, all bitmasks, gradient, arbitrary derivative, evaluator objects, call operators and C wrappers in a sanitized build (forked worker, crash attributed to the case).",
+             note="out-of-bounds accesses are observed by AddressSanitizer, not proved absent; quick tier executes one third of the states (all NaN/inf states)", ref="5/C05"),
+ "C12": dict(tech="TLA+ specification of the coordinator/worker hand-shake (WalkDescents.tla, one action per pthread call) model-checked by TLC (deadlock, liveness, NoStaleRead, NoRace, Deterministic); TLC transition cover replayed on the real walk_descents through a cooperative pthread shim; recorded executions validated by Trace_WalkDescents",
+             text="TLC checks 10 (quick) / 15 (thorough) worker x alpha x outcome configurations with and without spurious wake-ups. The complete labelled state graph of small configurations is dumped, a path set covering every transition is computed and each path is forced onto the unmodified cholesky_solve.c by the shim (-include renaming of the pthread calls); worker-first / coordinator-first / round-robin / random / free-running schedules for 1..32 workers follow; every recorded event sequence must be a behaviour of the specification with all invariants, results must be bit-identical.",
+             note="pthread primitives are trusted to behave as modelled; data races on memory the shim does not observe are left to the TSan runs (C10)", ref="5/C12"),
+ "C16": dict(tech="TLA+ ordered-map specification (AuxStore.tla): exhaustive TLC BFS on a reduced alphabet, tlc -simulate behaviour generation on the full alphabet, replay on the real table, deviation-collecting trace validation (Trace_AuxStore) of every real call",
+             text="operation histories of length 40 over 13 keys x 16 values (every acceptance class of FITS cards, exact-fit and one-too-long values per card kind, quotes, trailing blanks) interleaved with FITS round trips through memory and disk, through C++ and C entry points; every call's outcome and resulting store are judged by the specification.",
+             note="the MustReject set is the minimum FITS cannot carry; stricter refusals are allowed; value identity is modulo trailing blanks", ref="5/C16"),
 }
 NOT_YET = {}
 def main():
